@@ -25,8 +25,13 @@
     prepend_preserves_wellnested append_preserves_wellnested rename_preserves_wellnested
     attr_preserves_wellnested cut_preserves_wellnested map_preserves_wellnested
     chain_wellnested_partial invert_wrap_breaks_nesting attr_wrap_emits_empty_wrapper
+    filler_empty_id filler_only_value_attrs_partial filler_no_text_change_partial
+    filler_wellnested_partial filler_fills_given_partial filler_checks_given filler_selects_given
+    filler_fills_textarea_partial filler_no_passwords
+    filler_option_children_moved filler_textarea_none_erased
 -/
 import Genshi.Lemmas.TfSegs
+import Genshi.Lemmas.TfFill
 namespace Genshi.Props.C20
 open Genshi Genshi.Tf
 
@@ -269,5 +274,124 @@ theorem attr_wrap_emits_empty_wrapper :
       [.start (qn 'r') [], .start (qn 'a') [(qn 'x', ['1'])], .end_ (qn 'a'), .end_ (qn 'r')] =
     some [.start (qn 'r') [], .start (qn 'w') [], .end_ (qn 'w'), .start (qn 'a') [(qn 'x', ['1'])],
       .end_ (qn 'a'), .end_ (qn 'r')] := by decide
+
+/-! ## the form filler -/
+
+open Genshi.Fill
+
+/-- For empty data the form filler is the identity (for every stream, well nested or not,
+    whatever `name` / `id` / `passwords`). -/
+theorem filler_empty_id (c : Cfg) (h : c.data = []) (s : Stream) : fill c s = some s :=
+  fillGo_empty h s {} rfl rfl
+
+/-
+  Full statement: the form filler changes nothing but value/checked/selected attributes and
+  textarea content of controls named in its data.
+  Proved (`_partial`, hypothesis `optText`: every START of an `option` is followed by TEXT events
+  only and then the END of an option — known finding C20-option-children is its negation):
+  erase `value`/`checked`/`selected` attributes and TEXT events on both sides and the streams are
+  equal — every other event, every other attribute and the order are unchanged.  Not proved:
+  that the attribute changes are confined to controls named in the data (the oracle checks it).
+-/
+theorem filler_only_value_attrs_partial (c : Cfg) (s out : Stream) (hopt : optText false s = true)
+    (h : fill c s = some out) : norm false out = norm false s := fill_norm c s out hopt h
+
+/-- … and where there is no textarea element, TEXT events are unchanged too: the only
+    text the filler ever changes is textarea content. -/
+theorem filler_no_text_change_partial (c : Cfg) (s out : Stream) (hopt : optText false s = true)
+    (hta : ∀ e ∈ s, isTextareaStart e = false) (h : fill c s = some out) :
+    norm true out = norm true s := fill_norm_text c s out hopt hta h
+
+/-- The form filler maps a well-nested stream to a well-nested stream (same hypothesis). -/
+theorem filler_wellnested_partial (c : Cfg) (s out : Stream) (hopt : optText false s = true)
+    (hwn : WellNested s) (h : fill c s = some out) : WellNested out :=
+  fill_wellnested c s out hopt hwn h
+
+/-- Fills what it is given, text-like inputs: an input of type text / hidden / none (or
+    password when asked) whose name has a value in the data comes out with `value` = that value
+    (`_partial`: a value `None` — or an empty list — is "nothing given"; for a textarea it
+    nevertheless erases the content, known finding C20-textarea-none). -/
+theorem filler_fills_given_partial (c : Cfg) (a : AttrList) (name : Str) (value : Val) (v : Scalar)
+    (ht : inputType a = [] ∨ inputType a = sHidden ∨ inputType a = sText ∨
+      (inputType a = sPassword ∧ c.passwords = true))
+    (hn : aget a sName = some name) (hne : name.isEmpty = false) (hl : c.lookup name = some value)
+    (hf : firstOf value = some v) :
+    aget (inputAttrs c a) sValue = some v.text ∧ normAttrs (inputAttrs c a) = normAttrs a :=
+  ⟨inputAttrs_value c a name value v ht hn hne hl hf, normAttrs_inputAttrs c a⟩
+
+/-- Checkboxes and radio buttons named in the data are checked exactly when the data says so
+    (declared value among the given values; without a declared value: truthiness, checkboxes only). -/
+theorem filler_checks_given (c : Cfg) (a : AttrList) (name : Str) (value : Val)
+    (ht : inputType a = sCheckbox ∨ inputType a = sRadio)
+    (hn : aget a sName = some name) (hne : name.isEmpty = false) (hl : c.lookup name = some value) :
+    ahas (inputAttrs c a) sChecked = isChecked (inputType a = sCheckbox) (aget a sValue) value :=
+  inputAttrs_checked c a name value ht hn hne hl
+
+/-- At the END of an option inside a select named in the data, the held-back START is emitted
+    with `selected` present exactly when the option's value (attribute or text) is among the
+    given values. -/
+theorem filler_selects_given (c : Cfg) (st : St) (tag ot : QName) (oa : AttrList)
+    (hF : st.inForm = true) (hS : st.inSelect = true) (ht : tag.loc = sOption)
+    (hp : st.optionStart = some (ot, oa)) :
+    ∃ oa', (step c st (.end_ tag)).map (·.2) = some (.start ot oa' :: (st.optionText ++ [.end_ tag])) ∧
+      ahas oa' sSelected = isSelected st.optionValue st.selectValue ∧ normAttrs oa' = normAttrs oa := by
+  have h1 : (sOption = sForm) = False := by decide
+  have h2 : (sOption = sSelect) = False := by decide
+  simp only [step, hF, hS, ht, h1, h2, ↓reduceIte, Bool.true_and, decide_true, hp]
+  by_cases hsel : isSelected st.optionValue st.selectValue = true
+  · refine ⟨aset oa sSelected sSelected, by simp [hsel], ?_, normAttrs_aset _ _ _ special_selected⟩
+    simp [ahas, aget_aset, hsel]
+  · have hsel' : isSelected st.optionValue st.selectValue = false := by simpa using hsel
+    by_cases hh : ahas oa sSelected = true
+    · refine ⟨adel oa sSelected, by simp [hsel', hh], ?_, normAttrs_adel _ _ special_selected⟩
+      simp [ahas, aget_adel, hsel']
+    · refine ⟨oa, by simp [hsel', hh], ?_, rfl⟩
+      simpa [hsel'] using hh
+
+/-- At the END of a textarea named in the data the given value is written as its text
+    (`_partial`: `None` writes nothing although the old content was dropped — C20-textarea-none). -/
+theorem filler_fills_textarea_partial (c : Cfg) (st : St) (tag : QName) (v : Scalar)
+    (hF : st.inForm = true) (hT : st.inTextarea = true) (ht : tag.loc = sTextarea)
+    (hS : st.inSelect = false) (hv : st.textareaValue = some v) (hne : v.text.isEmpty = false) :
+    (step c st (.end_ tag)).map (·.2) = some [.text v.text false, .end_ tag] := by
+  have h1 : (sTextarea = sForm) = False := by decide
+  have h2 : (sTextarea = sSelect) = False := by decide
+  simp only [step, hF, hS, hT, ht, h1, h2, ↓reduceIte, Bool.false_and, Bool.false_eq_true, Bool.true_and,
+    decide_true, hv, hne]
+  rfl
+
+/-- Passwords are never filled unless asked: with `passwords = False` the START event of a
+    password input passes unchanged, in every state of the filter. -/
+theorem filler_no_passwords (c : Cfg) (a : AttrList) (hp : c.passwords = false)
+    (ht : inputType a = sPassword) : inputAttrs c a = a := inputAttrs_password c a ht hp
+
+/-- Known finding C20-option-children (negation of `optText`): child elements of an option are
+    moved in front of it.  `<form><select name="s"><option><b>x</b>y</option></select></form>`
+    with data `{'s': 'xy'}` gives `…<b></b><option selected="selected">xy</option>…`. -/
+theorem filler_option_children_moved :
+    fill ⟨none, none, [(['s'], .one ⟨['x', 'y'], true, false⟩)], false⟩
+      [.start ⟨[], sForm⟩ [], .start ⟨[], sSelect⟩ [(⟨[], sName⟩, ['s'])], .start ⟨[], sOption⟩ [],
+       .start ⟨[], ['b']⟩ [], .text ['x'] false, .end_ ⟨[], ['b']⟩, .text ['y'] false,
+       .end_ ⟨[], sOption⟩, .end_ ⟨[], sSelect⟩, .end_ ⟨[], sForm⟩] =
+    some [.start ⟨[], sForm⟩ [], .start ⟨[], sSelect⟩ [(⟨[], sName⟩, ['s'])],
+       .start ⟨[], ['b']⟩ [], .end_ ⟨[], ['b']⟩,
+       .start ⟨[], sOption⟩ [(⟨[], sSelected⟩, sSelected)], .text ['x'] false, .text ['y'] false,
+       .end_ ⟨[], sOption⟩, .end_ ⟨[], sSelect⟩, .end_ ⟨[], sForm⟩] := by decide
+
+/-- Known finding C20-textarea-none: `{'t': None}` erases the content of the textarea. -/
+theorem filler_textarea_none_erased :
+    fill ⟨none, none, [(['t'], .one ⟨['N', 'o', 'n', 'e'], false, true⟩)], false⟩
+      [.start ⟨[], sForm⟩ [], .start ⟨[], sTextarea⟩ [(⟨[], sName⟩, ['t'])], .text ['o', 'l', 'd'] false,
+       .end_ ⟨[], sTextarea⟩, .end_ ⟨[], sForm⟩] =
+    some [.start ⟨[], sForm⟩ [], .start ⟨[], sTextarea⟩ [(⟨[], sName⟩, ['t'])],
+       .end_ ⟨[], sTextarea⟩, .end_ ⟨[], sForm⟩] := by decide
+
+/-- non-vacuity of the filler theorems: a form with a text input, data for it -/
+example : optText false [.start ⟨[], sForm⟩ [], .start ⟨[], sInput⟩ [(⟨[], sName⟩, ['n'])],
+      .end_ ⟨[], sInput⟩, .end_ ⟨[], sForm⟩] = true ∧
+    fill ⟨none, none, [(['n'], .one ⟨['v'], true, false⟩)], false⟩
+      [.start ⟨[], sForm⟩ [], .start ⟨[], sInput⟩ [(⟨[], sName⟩, ['n'])], .end_ ⟨[], sInput⟩, .end_ ⟨[], sForm⟩] =
+    some [.start ⟨[], sForm⟩ [], .start ⟨[], sInput⟩ [(⟨[], sName⟩, ['n']), (⟨[], sValue⟩, ['v'])],
+      .end_ ⟨[], sInput⟩, .end_ ⟨[], sForm⟩] := by decide
 
 end Genshi.Props.C20
